@@ -58,6 +58,31 @@ func main() {
 		os.Exit(cmdCheck(os.Args[2:]))
 	case "dump":
 		os.Exit(cmdDump(os.Args[2:]))
+	case "frames":
+		L, db, err := loadAll("/repo", "/verif")
+		if err != nil {
+			fmt.Fprintln(os.Stderr, err)
+			os.Exit(2)
+		}
+		cnt := map[string]int{}
+		for _, s := range enumerateFrameSites(L, db) {
+			k := "ok"
+			if !s.OK {
+				k = "FAIL"
+				if s.Obs {
+					k = "obs"
+				}
+			}
+			cnt[k]++
+			if !s.OK {
+				p := ""
+				if s.In != nil {
+					p = L.pos(s.In.Pos())
+				}
+				fmt.Printf("%-4s %-9s %-14s %-40s %s  [%s] in %s\n", k, s.Own, s.What, s.Desc, p, s.Why, shortKey(s.Fn.RelString(nil)))
+			}
+		}
+		fmt.Println(cnt)
 	default:
 		fmt.Fprintln(os.Stderr, "unknown command")
 		os.Exit(2)
@@ -186,6 +211,7 @@ func cmdCheck(args []string) int {
 // extraChecks are per-property obligation generators beyond function contracts (frames, enumerations).
 var extraChecks = map[string][]func(*Loaded, *ContractDB, *Report){
 	"C12": {fileLoopObligations},
+	"C17": {frameObligations},
 }
 
 func runDeductive(L *Loaded, db *ContractDB, rep *Report) {
@@ -198,6 +224,13 @@ func runDeductive(L *Loaded, db *ContractDB, rep *Report) {
 	for _, key := range db.sortedKeys() {
 		fc := db.Funcs[key]
 		if fc.Extern || fc.NoBody || !hasProp(fc.Props, rep.Prop) && !clauseHasProp(fc, rep.Prop) {
+			continue
+		}
+		if len(fc.Requires) == 0 && len(fc.Ensures) == 0 && len(fc.Loops) == 0 && !fc.NoPanic && len(fc.Asserts) == 0 {
+			// ownership-only contract: checked by the frame obligations, not by symbolic execution
+			if L.Funcs[key] == nil {
+				rep.Errs = append(rep.Errs, fmt.Sprintf("contract target missing: %s (%s)", key, fc.Src))
+			}
 			continue
 		}
 		fn := L.Funcs[key]
@@ -400,13 +433,17 @@ func finish(rep *Report, verif string, db *ContractDB, t0 time.Time) int {
 		if !replayed {
 			suffix = " no-failing-input-found"
 		}
-		fmt.Printf("VIOLATION property=%s replay=%s%s\n", rep.Prop, path, suffix)
+		if len(rep.Violations) < 25 {
+			fmt.Printf("VIOLATION property=%s replay=%s%s\n", rep.Prop, path, suffix)
+		} else if len(rep.Violations) == 25 {
+			fmt.Printf("(further violations are listed only in %s)\n", replayDir)
+		}
 		rep.Violations = append(rep.Violations, Violation{Obligation: f.name, Replay: path, NoInput: !replayed})
 		exit = 1
 	}
 	rep.Wall = time.Since(t0).Seconds()
 	writeEvidence(rep, verif, db, nObs, discharged, covers, coversSat, byBackend, solverS, samples, len(groups))
-	fmt.Printf("%s %s: %d obligations (%d named), %d discharged, %d covers (%d sat), %d functions, %.1fs\n", rep.Prop, rep.Tier, nObs, len(groups), discharged, covers, coversSat, len(rep.Funcs), rep.Wall)
+	fmt.Printf("%s %s: %d SMT obligations (%d named), %d discharged; %d structural obligations, %d discharged; %d covers (%d sat), %d functions, %.1fs\n", rep.Prop, rep.Tier, nObs, len(groups), discharged, extraInt(rep.Extra, "obligations_extra"), extraInt(rep.Extra, "discharged_extra"), covers, coversSat, len(rep.Funcs), rep.Wall)
 	return exit
 }
 
